@@ -103,6 +103,10 @@ pub fn gen(id: &str, r: &mut Rng, out: &mut Vec<Case>) {
             };
             out.push(case("square_root", *r.pick(&['0', '1', '2', '3', '4']), 0, vec![d(x)]));
         }
+        "FMASUB" => {
+            let (x, y, z) = fma_subnormal_product_triple(r);
+            out.push(case("fused_multiply_add", mode_tok(r), 0, vec![d(x), d(y), d(z)]));
+        }
         "C02" => {
             let (x, y, z) = fma_triple(r);
             out.push(case("fused_multiply_add", mode_tok(r), flags_in(r), vec![d(x), d(y), d(z)]));
